@@ -39,3 +39,9 @@ add("C08", "Hypothesis-generated reports with adversarial Unicode, round trip wr
     "written pretty and compact, parsed with the standard json module, compared with the source data, read back with ReportReader "
     "field by field and re-written; the re-written text must equal the original up to the timestamp.",
     "trusts Python's json module as the definition of valid JSON; lone surrogates and repository tags are outside the domain")
+
+add("C02", "exhaustive enumeration of lengths at every classification site + Hypothesis-generated source trees through check_command, single reference threshold table",
+    "Every length 1..200 is classified at 11 independent sites (profiles, counters, colours, symbols, both findings renderers) and "
+    "compared with one reference table; 640 (thorough 8000) generated multi-file, multi-language trees of flat functions with exact "
+    "lengths go through check_command in both quiet modes, checking exit status, listing, order, symbols, summary count and silence.",
+    "flat functions only in part B; colours observed as rich Style objects; check_command invoked in-process")
